@@ -77,6 +77,26 @@ def gen_program(rng, nfiles):
             out.append((fname, text))
         files = out + [("defs.mac", "\n".join(dl) + "\n")]
         markers["defs.mac"] = [(dn[2], marker)]
+    # many units: ten and more files compiled in one run (the counters behind the qualified names reach two digits)
+    if rng.random() < 0.25:
+        nmod = rng.randint(9, 14)
+        out = list(files)
+        incs = []
+        for k in range(nmod):
+            marker += 1
+            mn = "mod%02d.mac" % k
+            sym = "%s%d" % (rng.choice(["score", "lvl.", "M", "snd$"]), k)
+            out.append((mn, "%s: .word %s\n%s_k = %d.\n" % (sym, oct(marker)[2:], sym, k)))
+            markers[mn] = [(sym, marker)]
+            incs.append(mn)
+        hosts_i = [i for i, (fn, _) in enumerate(files) if fn != "defs.mac" and "/" not in fn]
+        for mn in incs:
+            hi = rng.choice(hosts_i)
+            fn, text = out[hi]
+            ls = text.split("\n")
+            ls.insert(rng.randrange(len(ls)), ".even\n.include \"%s\"\n.even" % mn)
+            out[hi] = (fn, "\n".join(ls))
+        files = out
     return files, markers
 
 
@@ -129,7 +149,7 @@ def run(ctx):
                 with open(os.path.join(d, fn), "w", encoding="utf-8") as f:
                     f.write(txt)
             before = impl.snapshot_dir(d)
-            linked = [fn for fn, _ in files if fn != "defs.mac"]
+            linked = [fn for fn, _ in files if fn != "defs.mac" and not fn.startswith("mod")]
             charset = rng.choice(["bk", "bk", "utf-8", "koi8-r"])
             if charset != "bk":
                 argv_extra = argv_extra + ["--charset", charset]
@@ -154,7 +174,7 @@ def run(ctx):
                 continue
             text = after[lsts[0]].decode("utf-8")
             # the same sources compiled in-process give the reference symbol table and image
-            abs_files = [(os.path.join(d, fn), txt) for fn, txt in files if fn != "defs.mac"]
+            abs_files = [(os.path.join(d, fn), txt) for fn, txt in files if fn != "defs.mac" and not fn.startswith("mod")]
             r = impl.assemble(abs_files, want_symbols=True, charset=charset)
             if r.outcome != "ok":
                 continue
